@@ -94,6 +94,13 @@ SearchReaches(p, t, base, s) ==
 \* a plain Gopher search string that looks like a Gopher+ flag field ("+...", "$...", "!") makes the request a
 \* Gopher+ request without search string (gopherp.py canhandlerequest, listed before rfc1436): inherent in Gopher+
 PlusFlagAmbiguity(p, s) == p \in {"G", "SG"} /\ (Ch(s, 1) \in {"+", "$"} \/ s = "!")
+\* a search request that another protocol class claims: the TAB-separated plain Gopher line "selector TAB string"
+\* can have the shape of another protocol's request grammar - "/e b.pyg<TAB>a 1" and "/echo.pyg<TAB>a b 1" are
+\* well-formed Spartan lines ("host path length": exactly two blanks, numeric last word; spartan.py splits at
+\* blanks only), so SpartanProtocol, listed before the Gopher classes, answers and the search string is lost.
+\* Same root as C05's CapturedBy_SpartanProtocol for selectors.  (A string like "a 1" after a blank-free selector
+\* is NOT such a line: only a TAB separates selector and string.)
+SearchCapturedBy(p, t, base, s) == LET cls == Parse(Follow(p, t, base, s)).cls IN IF cls = OwnClass(p) THEN "none" ELSE cls
 \* search strings the property quantifies over: no leading/trailing blanks (Gopher request parsing strips them), not empty
 SearchInScope(s) == s # "" /\ Strip(s) = s
 =============================================================================
